@@ -47,9 +47,18 @@ def edit_obl(mode, nf, nd, nc, ks, kl, cn, rot, mask=31, focus=0, symp=0, tier="
                defs=defs, replace_calls=EDIT_REPLACE,
                flags=["--max-field-sensitivity-array-size", str(max(slab, outcap) + 1)],
                unwind=12 + (cn + 1 if cn > 10 else 0),
-               unwindset={"vp_expect_bytes.0": outcap + 1,
-                          "ref_put_byte.0": 9 * bin(focus & 0x3ff).count("1") + 4 * bin(focus >> 10).count("1") + 2, "ref_decode.0": nfields + 1,
-                          "ldb_edit_import.0": nfields + 1},
+               unwindset=dict([("vp_expect_bytes.0", outcap + 1),
+                               ("ref_put_byte.0", 9 * bin(focus & 0x3ff).count("1") + 4 * bin(focus >> 10).count("1") + 2),
+                               ("ref_decode.0", nfields + 1), ("ldb_edit_import.0", nfields + 1),
+                               # containers: at most nc / nd / nf elements (+1 exit test, +1 spare)
+                               ("ldb_edit_clear.0", nc + 2), ("ldb_edit_clear.1", nf + 2),
+                               ("check_edit.0", nc + 2), ("check_edit.1", nf + 2), ("check_edit.2", nd + 2),
+                               ("ref_edit_equal.0", nc + 2), ("ref_edit_equal.1", nd + 2), ("ref_edit_equal.2", nf + 2),
+                               ("ldb_edit_export.0", nc + 2), ("ldb_edit_export.1", nd + 2), ("ldb_edit_export.2", nf + 2),
+                               ("ref_encode.0", nc + 2), ("ref_encode.1", nd + 2), ("ref_encode.2", nf + 2)] +
+                              [("ref_canon_del.%d" % i, nd + 2) for i in range(5)] +
+                              [(l, nd + 2) for l in ("rb_node_min.0", "rb_node_successor.0", "rb_node_successor.1",
+                                                     "ldb_rb_tree_put.0", "rb_tree_insert_fixup.0", "rb_node_clear")]),
                timeout=600, tier=tier, functions=EDIT_FUNCS, desc=what,
                bounds="%d new files, %d deleted files, %d compact pointers, keys %d/%d bytes, comparator name %d bytes; "
                       "scalar fields symbolic present/absent, levels 0..6; every 64-bit number symbolic inside the varint "
@@ -138,6 +147,51 @@ for mode in (2, 3):
         OBLIGATIONS.append(edit_cfg(mode, c))
 OBLIGATIONS.append(edit_cfg(4, (1, 1, 1, 8, 8, 2, 2, 31, 0, 0, 0)))
 
+# ---- c: ldb_edit_import on arbitrary bytes ----
+def edit_arb(n, k=None, tag=None, want=None, tier="quick"):
+    defs = {"VP_MODE": 1, "VP_N": n, "VP_SLAB": max(2 * n, 16), "VP_VEC_CAP": 4}
+    name = "c.edit-import-arbitrary-N%d" % n
+    if tag is not None:
+        defs["VP_TAG"] = tag
+        name += "-T%d" % tag
+    if want is not None:
+        defs["VP_WANT"] = want
+    iters = n // 2 + 2
+    if k is not None and k + 1 < iters:
+        defs["VP_K"] = k
+        name += "-K%d" % k
+        iters = k + 1
+    ncp, ndel, nnf = n // 11, n // 3, n // 22
+    return Obl(name, "C17/edit.c", real=EDIT_REAL, kit=EDIT_KIT, include_real=["util/vector.c"],
+               defs=defs, replace_calls=EDIT_REPLACE,
+               flags=["--max-field-sensitivity-array-size", str(max(2 * n, 16) + 1)],
+               unwind=max(12, n + 2),
+               unwindset=dict([("ref_decode.0", iters), ("ldb_edit_import.0", iters),
+                               ("ldb_edit_clear.0", ncp + 2), ("ldb_edit_clear.1", nnf + 2),
+                               ("check_edit.0", ncp + 2), ("check_edit.1", nnf + 2), ("check_edit.2", ndel + 2)] +
+                              [("ref_canon_del.%d" % i, ndel + 2) for i in range(5)] +
+                              [(l, ndel + 2) for l in ("rb_node_min.0", "rb_node_successor.0", "rb_node_successor.1",
+                                                       "ldb_rb_tree_put.0", "rb_tree_insert_fixup.0", "rb_node_clear")]),
+               timeout=900, tier=tier, unwind_is_violation=(k is not None),
+               functions=["ldb_edit_import", "ldb_level_slurp", "ldb_edit_add_file", "ldb_edit_remove_file",
+                          "ldb_edit_set_compact_pointer", "ldb_edit_clear", "ldb_buffer_slurp", "ldb_slice_slurp",
+                          "ldb_varint32_read", "ldb_varint64_read"],
+               desc="ldb_edit_import accepts iff the reference MANIFEST-record decoder accepts (level < 7, keys >= 8 bytes, "
+                    "known tags, complete fields) and then holds exactly the reference's fields; memory-safe on an exact-size input",
+               bounds="%d arbitrary bytes%s%s" % (n, "" if tag is None else ", first byte = tag %d" % tag,
+                                                  "" if k is None else ", at most %d fields per the reference decoder" % k))
+
+
+for n in range(0, 4):
+    OBLIGATIONS.append(edit_arb(n))
+for n in range(4, 9):
+    OBLIGATIONS.append(edit_arb(n, k=2))
+OBLIGATIONS.append(edit_arb(11, k=1, tag=5, want=5))
+OBLIGATIONS.append(edit_arb(12, k=1, tag=5, want=5))
+OBLIGATIONS.append(edit_arb(22, k=1, tag=7, want=7))
+OBLIGATIONS.append(edit_arb(12, k=2, tier="thorough"))
+OBLIGATIONS.append(edit_arb(24, k=1, tag=7, want=7, tier="thorough"))
+
 # ---- f: CURRENT ----
 for d, tier in ((6, "quick"), (7, "thorough")):
     OBLIGATIONS.append(Obl("f.encode-int-D%d" % d, "C17/current.c", tier=tier,
@@ -163,6 +217,16 @@ for num, tier in SETCUR_NUMS:
                            desc="temp <db>/NNNNNN.dbtmp written with 'MANIFEST-NNNNNN\\n' and should_sync=1, then renamed to CURRENT; "
                                 "any failure: temp removed, error returned; CURRENT never written/removed directly",
                            bounds="descriptor number %s; each env call fails or not with any non-zero code; db name fixed" % num))
+
+OBLIGATIONS.append(Obl("f.env-write-file", "C17/env_write.c", real=["util/env.c"],
+                       kit=["vp_nondet.c", "vp_mem.c"], unwind=12, replay=False,
+                       replace_calls=["ldb_truncfile_create0:vp_truncfile_create0", "ldb_wfile_append0:vp_wfile_append0",
+                                      "ldb_wfile_sync0:vp_wfile_sync0", "ldb_wfile_close:vp_wfile_close",
+                                      "ldb_wfile_destroy:vp_wfile_destroy", "ldb_remove_file:vp_remove_file"],
+                       functions=["ldb_write_file", "ldb_truncfile_create", "ldb_wfile_append", "ldb_wfile_sync"],
+                       desc="ldb_write_file: create, append all data, sync iff should_sync and before close, close, destroy; "
+                            "any failure after create => file removed, first error returned",
+                       bounds="4 data bytes; should_sync any int; every primitive fails or not with any code"))
 
 META = {
     "level": "model_checking",
